@@ -9,6 +9,12 @@ import (
 	"math/rand"
 	"strings"
 
+	"github.com/ryogrid/SamehadaDB/lib/storage/access"
+	"github.com/ryogrid/SamehadaDB/lib/storage/index/index_constants"
+	"github.com/ryogrid/SamehadaDB/lib/storage/page"
+	"github.com/ryogrid/SamehadaDB/lib/storage/table/column"
+	"github.com/ryogrid/SamehadaDB/lib/storage/table/schema"
+	"github.com/ryogrid/SamehadaDB/lib/storage/tuple"
 	"github.com/ryogrid/SamehadaDB/lib/types"
 	"verif/harness/internal/eng"
 	"verif/harness/internal/trace"
@@ -96,6 +102,7 @@ type tableDef struct {
 	name  string
 	cols  []string // types
 	names []string // column names
+	kinds []string // index kind per column (skiplist | btree | hash | uniq | none); nil = created through SQL (all skiplist)
 }
 
 func (t *tableDef) createSQL() string {
@@ -178,9 +185,19 @@ type sqlRun struct {
 	e   *eng.Engine
 	ctx string
 	n   int
+	txn *access.Transaction // explicit transaction in progress, or nil (autocommit)
+	dead    bool
+	deadEmitted bool
+	aborted bool // the explicit transaction was aborted by one of its statements
 }
 
 func (s *sqlRun) emit(ev map[string]interface{}) {
+	if s.dead && ev["ev"] != "Reset" {
+		if _, isStmt := ev["res"]; !isStmt || s.deadEmitted {
+			return
+		}
+		s.deadEmitted = true
+	}
 	ev["ctx"] = s.ctx
 	s.tw.Emit(ev)
 	s.n++
@@ -188,10 +205,22 @@ func (s *sqlRun) emit(ev map[string]interface{}) {
 
 func (s *sqlRun) stmt(ev map[string]interface{}, sql string) eng.Result {
 	pb := s.e.Pins()
-	r := s.e.Exec(sql)
+	var r eng.Result
+	if s.txn != nil {
+		r, _ = s.e.ExecTxn(s.txn, sql)
+		ev["intxn"] = true
+	} else {
+		r = s.e.Exec(sql)
+	}
 	ev["res"] = r.Res
 	ev["pb"], ev["pa"] = pb, s.e.Pins()
 	ev["sql"] = shortSQL(sql)
+	if strings.HasPrefix(r.Res, "panic") {
+		s.dead = true // a panic inside a statement leaves latches / locks behind: the instance is not used further
+	}
+	if r.Res == "abort" && s.txn != nil {
+		s.aborted = true
+	}
 	return r
 }
 
@@ -203,6 +232,9 @@ func shortSQL(s string) string {
 }
 
 func (s *sqlRun) create(t *tableDef) {
+	if s.dead || (s.txn != nil && s.aborted) {
+		return
+	}
 	ev := map[string]interface{}{"ev": "Create", "t": t.name, "cols": t.cols}
 	s.stmt(ev, t.createSQL())
 	s.emit(ev)
@@ -210,6 +242,9 @@ func (s *sqlRun) create(t *tableDef) {
 
 // insert rows (ranks) with one INSERT statement; colOrder is a permutation of the columns used in the column list
 func (s *sqlRun) insert(t *tableDef, rows [][]int, colOrder []int) {
+	if s.dead || (s.txn != nil && s.aborted) {
+		return
+	}
 	if colOrder == nil {
 		colOrder = make([]int, len(t.cols))
 		for i := range colOrder {
@@ -235,6 +270,9 @@ func (s *sqlRun) insert(t *tableDef, rows [][]int, colOrder []int) {
 }
 
 func (s *sqlRun) selectQ(t *tableDef, p *pred, proj []int, sync bool) {
+	if s.dead || (s.txn != nil && s.aborted) {
+		return
+	}
 	cols := "*"
 	if proj == nil {
 		proj = make([]int, len(t.cols))
@@ -262,6 +300,9 @@ func (s *sqlRun) selectQ(t *tableDef, p *pred, proj []int, sync bool) {
 func (s *sqlRun) scan(t *tableDef) { s.selectQ(t, predTrue, nil, true) }
 
 func (s *sqlRun) update(t *tableDef, set [][2]int, p *pred) {
+	if s.dead || (s.txn != nil && s.aborted) {
+		return
+	}
 	parts := []string{}
 	sj := [][]int{}
 	for _, sv := range set {
@@ -276,6 +317,9 @@ func (s *sqlRun) update(t *tableDef, set [][2]int, p *pred) {
 }
 
 func (s *sqlRun) delete(t *tableDef, p *pred) {
+	if s.dead || (s.txn != nil && s.aborted) {
+		return
+	}
 	sql := "DELETE FROM " + t.name + where(p, t) + ";"
 	ev := map[string]interface{}{"ev": "Delete", "t": t.name, "pred": p.json()}
 	ev["plan"] = s.e.PlanOf(sql)
@@ -284,6 +328,9 @@ func (s *sqlRun) delete(t *tableDef, p *pred) {
 }
 
 func (s *sqlRun) stats() {
+	if s.dead || (s.txn != nil && s.aborted) {
+		return
+	}
 	pm := s.e.RefreshStats()
 	res := "ok"
 	if pm != "" {
@@ -323,4 +370,205 @@ func randRow(rng *rand.Rand, t *tableDef, maxRank int) []int {
 		r[i] = rng.Intn(maxRank)
 	}
 	return r
+}
+
+var kindConst = map[string]index_constants.IndexKind{"skiplist": index_constants.IndexKindSkipList, "btree": index_constants.IndexKindBtree,
+	"hash": index_constants.IndexKindHash, "uniq": index_constants.IndexKindUniqSkipList, "none": index_constants.IndexKindInvalid}
+var typeConst = map[string]types.TypeID{"int": types.Integer, "float": types.Float, "varchar": types.Varchar}
+
+// createAPI creates the table through catalog.CreateTable so that the index kind of each column can be chosen
+func (s *sqlRun) createAPI(t *tableDef) {
+	if s.dead || (s.txn != nil && s.aborted) {
+		return
+	}
+	ev := map[string]interface{}{"ev": "Create", "t": t.name, "cols": t.cols, "kinds": t.kinds}
+	pb := s.e.Pins()
+	res := "ok"
+	func() {
+		defer func() {
+			if x := recover(); x != nil {
+				res = "panic:" + fmt.Sprint(x)
+			}
+		}()
+		cols := []*column.Column{}
+		for i := range t.cols {
+			k := kindConst[t.kinds[i]]
+			cols = append(cols, column.NewColumn(t.names[i], typeConst[t.cols[i]], k != index_constants.IndexKindInvalid, k, types.PageID(-1), nil))
+		}
+		txn := s.e.TM().Begin(nil)
+		s.e.Catalog().CreateTable(t.name, schema.NewSchema(cols), txn)
+		s.e.TM().Commit(s.e.Catalog(), txn)
+	}()
+	ev["res"], ev["pb"], ev["pa"] = res, pb, s.e.Pins()
+	s.emit(ev)
+}
+
+func (s *sqlRun) begin() {
+	if s.dead || (s.txn != nil && s.aborted) {
+		return
+	}
+	s.txn = s.e.TM().Begin(nil)
+	s.emit(map[string]interface{}{"ev": "Begin", "res": "ok"})
+}
+
+func (s *sqlRun) endTxn(commit bool) {
+	if s.dead || s.txn == nil {
+		return
+	}
+	if s.aborted {
+		commit = false
+	}
+	s.aborted = false
+	name := "Abort"
+	if commit {
+		name = "Commit"
+	}
+	ev := map[string]interface{}{"ev": name}
+	pb := s.e.Pins()
+	res := "ok"
+	func() {
+		defer func() {
+			if x := recover(); x != nil {
+				res = "panic:" + fmt.Sprint(x)
+			}
+		}()
+		if commit {
+			s.e.TM().Commit(s.e.Catalog(), s.txn)
+		} else {
+			s.e.TM().Abort(s.e.Catalog(), s.txn)
+		}
+	}()
+	s.txn = nil
+	ev["res"], ev["pb"], ev["pa"] = res, pb, s.e.Pins()
+	s.emit(ev)
+}
+
+// fetchRows reads the rows the given row ids point to (a fresh read-only transaction)
+func (s *sqlRun) fetchRows(t *tableDef, rids []page.RID) (rows [][]int, res string) {
+	res = "ok"
+	defer func() {
+		if x := recover(); x != nil {
+			res = "panic:" + fmt.Sprint(x)
+		}
+	}()
+	tm := s.e.Catalog().GetTableByName(t.name)
+	txn := s.e.TM().Begin(nil)
+	defer s.e.TM().Commit(s.e.Catalog(), txn)
+	rows = [][]int{}
+	for _, rid := range rids {
+		r := rid
+		tpl, err := tm.Table().GetTuple(&r, txn)
+		if tpl == nil || err != nil {
+			rows = append(rows, []int{-99})
+			continue
+		}
+		row := []int{}
+		for c := range t.cols {
+			v := tpl.GetValue(tm.Schema(), uint32(c))
+			row = append(row, rankOf(&v))
+		}
+		rows = append(rows, row)
+	}
+	return rows, res
+}
+
+// idxPoint asks the index object of column c for the row ids stored under the key of rank v
+func (s *sqlRun) idxPoint(t *tableDef, c int, v int) {
+	if s.dead || (s.txn != nil && s.aborted) {
+		return
+	}
+	ev := map[string]interface{}{"ev": "IdxPoint", "t": t.name, "c": c, "v": v, "kind": t.kindOf(c), "rows": [][]int{}}
+	func() {
+		defer func() {
+			if x := recover(); x != nil {
+				ev["res"] = "panic:" + fmt.Sprint(x)
+			}
+		}()
+		tm := s.e.Catalog().GetTableByName(t.name)
+		idx := tm.GetIndex(c)
+		val := valueOf(t.cols[c], v)
+		key := tuple.GenTupleForIndexSearch(tm.Schema(), uint32(c), &val)
+		txn := s.e.TM().Begin(nil)
+		rids := idx.ScanKey(key, txn)
+		s.e.TM().Commit(s.e.Catalog(), txn)
+		rows, res := s.fetchRows(t, rids)
+		ev["rows"], ev["res"] = rows, res
+	}()
+	s.emit(ev)
+}
+
+// idxRange walks the ordered index of column c between ranks lo and hi (-2 = open)
+func (s *sqlRun) idxRange(t *tableDef, c int, lo, hi int) {
+	if s.dead || (s.txn != nil && s.aborted) {
+		return
+	}
+	ev := map[string]interface{}{"ev": "IdxRange", "t": t.name, "c": c, "lo": lo, "hi": hi, "kind": t.kindOf(c), "rows": [][]int{}}
+	func() {
+		defer func() {
+			if x := recover(); x != nil {
+				ev["res"] = "panic:" + fmt.Sprint(x)
+			}
+		}()
+		tm := s.e.Catalog().GetTableByName(t.name)
+		idx := tm.GetIndex(c)
+		var lk, hk *tuple.Tuple
+		if lo != -2 {
+			val := valueOf(t.cols[c], lo)
+			lk = tuple.GenTupleForIndexSearch(tm.Schema(), uint32(c), &val)
+		}
+		if hi != -2 {
+			val := valueOf(t.cols[c], hi)
+			hk = tuple.GenTupleForIndexSearch(tm.Schema(), uint32(c), &val)
+		}
+		txn := s.e.TM().Begin(nil)
+		itr := idx.GetRangeScanIterator(lk, hk, txn)
+		rids := []page.RID{}
+		for done, _, _, rid := itr.Next(); !done; done, _, _, rid = itr.Next() {
+			rids = append(rids, *rid)
+			if len(rids) > 5000 {
+				break
+			}
+		}
+		s.e.TM().Commit(s.e.Catalog(), txn)
+		rows, res := s.fetchRows(t, rids)
+		ev["rows"], ev["res"] = rows, res
+	}()
+	s.emit(ev)
+}
+
+func (t *tableDef) kindOf(c int) string {
+	if t.kinds == nil {
+		return "skiplist"
+	}
+	return t.kinds[c]
+}
+
+// probes: the full battery at a quiescent point - heap scan, every index by point lookup of every
+// rank and by a full and a partial ordered range, and SQL statements through the planner
+func (s *sqlRun) probes(t *tableDef, rng *rand.Rand) {
+	s.scan(t)
+	for c := range t.cols {
+		k := t.kindOf(c)
+		if k == "none" {
+			continue
+		}
+		for v := 0; v < NRanks; v++ {
+			s.idxPoint(t, c, v)
+		}
+		if k != "hash" {
+			s.idxRange(t, c, -2, -2)
+			lo := rng.Intn(NRanks)
+			s.idxRange(t, c, lo, lo+rng.Intn(NRanks-lo))
+		}
+		s.selectQ(t, atom(c, cmpOps[rng.Intn(6)], rng.Intn(NRanks)), nil, false)
+	}
+}
+
+func (t *tableDef) hasBtreeVarchar() bool {
+	for i, k := range t.kinds {
+		if k == "btree" && t.cols[i] == "varchar" {
+			return true
+		}
+	}
+	return false
 }
